@@ -3,7 +3,7 @@
 the `detection` / `detected_by` fields of seeded/<name>/meta.json.  usage: seed_detect.py [name-substring ...]"""
 import json, os, subprocess, sys
 V = '/verif'
-wt = '/tmp/wt_detect'
+wt = os.environ.get('WT_DETECT', '/tmp/wt_detect')
 def sh(cmd, cwd=None):
     p = subprocess.run(cmd, shell=True, cwd=cwd, stdout=subprocess.PIPE, stderr=subprocess.STDOUT, text=True)
     return p.returncode, p.stdout
